@@ -36,6 +36,9 @@ var reqKinds = map[string]string{
 	"OTHER":    "GET http://b.test/y HTTP/1.1\r\nHost: b.test\r\n%s\r\n",
 	"CONNECT":  "CONNECT b.test:443 HTTP/1.1\r\nHost: b.test:443\r\n%s\r\n",
 	"GETCLOSE": "GET http://a.test/z HTTP/1.1\r\nHost: a.test\r\nConnection: close\r\n%s\r\n",
+	// explicit port in the first request's Host, and a later CONNECT to exactly that authority
+	"GETP":        "GET http://a.test:80/p HTTP/1.1\r\nHost: a.test:80\r\n%s\r\n",
+	"CONNECTSAME": "CONNECT a.test:80 HTTP/1.1\r\nHost: a.test:80\r\n%s\r\n",
 }
 
 var hdrVariants = map[string]string{
@@ -305,7 +308,7 @@ func scenario(param string) vsched.Scenario {
 			authOK := sp.auth == "off" || sp.auth == "right"
 			if authOK {
 				for i, ex := range sp.exchs {
-					if i > 0 && (ex.req == "OTHER" || ex.req == "CONNECT") {
+					if i > 0 && (ex.req == "OTHER" || ex.req == "CONNECT" || ex.req == "CONNECTSAME") {
 						break
 					}
 					if i == 0 && ex.req == "CONNECT" {
@@ -347,7 +350,7 @@ func scenario(param string) vsched.Scenario {
 				w := want[i]
 				if w.Method == "*" {
 					// after a terminating response: a pipelined later request to the same host may already be in flight
-					if got.Host != "a.test" {
+					if got.Host != "a.test" && got.Host != "a.test:80" || got.Method == "CONNECT" {
 						return obs, "request for another host reached this origin"
 					}
 					want = append(want, reqRec{Method: "*"})
@@ -450,6 +453,13 @@ func family(c *harness.Check) []string {
 					add(spec{"off", pipe, []exch{{r1, "h1", s1}, {r2, "h2", "S200CH"}}})
 				}
 			}
+		}
+	}
+	// a later CONNECT whose target is textually the first request's Host
+	for _, pipe := range []bool{true, false} {
+		for _, s1 := range []string{"S200CL", "S100"} {
+			add(spec{"off", pipe, []exch{{"GETP", "h1", s1}, {"CONNECTSAME", "h0", "S200CL"}}})
+			add(spec{"off", pipe, []exch{{"GETP", "h1", s1}, {"GETP", "h2", "S204"}, {"CONNECTSAME", "h0", "S200CL"}}})
 		}
 	}
 	// auth
